@@ -330,7 +330,7 @@ def r5_blocks(ctx):
     fn = ctx.fn(DIP, "DIP._get_queue")
     inner = [w for w in ast.walk(fn) if isinstance(w, ast.While) and w.orelse]
     ok = len(inner) == 1 and any(isinstance(x, ast.Raise) for x in inner[0].orelse) and any(isinstance(x, ast.Break) for x in ast.walk(inner[0]))
-    ctx.check(ok, DIP, "DIP._get_queue", "a block opened with triple quotes must be closed: running out of lines is an error",
+    ctx.form(ok, DIP, "DIP._get_queue", "a block opened with triple quotes must be closed: running out of lines is an error",
               detail=None if ok else "while...else raise not found")
     s = norm(fn).replace("\n", " ")
     ctx.form("line['code'] += Sign.NEWLINE.join(block) + subline['code'].lstrip()" in s and "block.append(subline['code'])" in s, DIP,
